@@ -54,6 +54,66 @@ def axes_from_function(f: FuncInfo, var: str, ndim: int):
     return cur
 
 
+def feature_dict_written_keys(dump: FuncInfo):
+    """keys of the inner dictionary dump_json writes: constant keys of dict literals (outside the one-key wrapper and the
+    per-feature comprehension), constant subscript stores, and the elements of a constant tuple a loop / comprehension
+    takes its keys from.  None when no key is recognised."""
+    keys: set[str] = set()
+    loopvars: dict[str, list[str]] = {}
+    for x in ast.walk(dump.node):
+        if isinstance(x, (ast.For, ast.comprehension)) and isinstance(x.target, ast.Name) and isinstance(x.iter, (ast.Tuple, ast.List)) and all(
+                isinstance(e, ast.Constant) and isinstance(e.value, str) for e in x.iter.elts):
+            loopvars[x.target.id] = [e.value for e in x.iter.elts]
+    for x in ast.walk(dump.node):
+        if isinstance(x, ast.Dict):
+            ks = [k for k in x.keys if isinstance(k, ast.Constant) and isinstance(k.value, str)]
+            if len(x.keys) == 1 and ks and isinstance(x.values[0], (ast.Dict, ast.Name)) and ks[0].value[:1].isupper():
+                continue  # the wrapper {"FeatureDict": ...}
+            keys |= {k.value for k in ks}
+        if isinstance(x, ast.DictComp) and isinstance(x.key, ast.Name) and x.key.id in loopvars:
+            keys |= set(loopvars[x.key.id])
+        if isinstance(x, ast.Assign):
+            for t in x.targets:
+                if isinstance(t, ast.Subscript):
+                    if isinstance(t.slice, ast.Constant) and isinstance(t.slice.value, str):
+                        keys.add(t.slice.value)
+                    elif isinstance(t.slice, ast.Name) and t.slice.id in loopvars:
+                        keys |= set(loopvars[t.slice.id])
+        if isinstance(x, ast.Call) and call_name(x) in ("update", "dict") and x.keywords:
+            keys |= {k.arg for k in x.keywords if k.arg}
+    return keys or None
+
+
+def feature_dict_keys_agree(P: Program, R: Report, rule: str) -> None:
+    """the special keys of the feature dictionary (time / position / tracklet / lineage key) survive dump_json -> from_json:
+    written keys == read keys == constructor parameters.  Shared with C06: a key that is lost on save comes back as None,
+    and the track annotator then never builds the lookup for it from the loaded graph."""
+    fd = P.class_named("FeatureDict")
+    dump, load, init = fd.methods["dump_json"], fd.methods["from_json"], fd.methods["__init__"]
+    wkeys = feature_dict_written_keys(dump)
+    rkeys = set()
+    for c in ast.walk(load.node):
+        if isinstance(c, ast.Subscript) and isinstance(c.slice, ast.Constant) and norm(c.value) == "data":
+            rkeys.add(c.slice.value)
+        if isinstance(c, ast.Call) and call_name(c) == "get" and norm(c.func.value) == "data" and c.args:
+            rkeys.add(c.args[0].value)
+    pkeys = set(init.params[1:])
+    if wkeys is None:
+        R.undecided(rule, dump, dump.node, "dump_json keys == from_json keys == FeatureDict constructor parameters", "the keys dump_json writes were not recognised")
+        wkeys = rkeys
+    R.check(wkeys == rkeys == pkeys, rule, dump, dump.node, "dump_json keys == from_json keys == FeatureDict constructor parameters",
+            f"written {sorted(wkeys)}, read {sorted(rkeys)}, parameters {sorted(pkeys)}", via="table-agreement")
+    outer_w = [r.value for r in ast.walk(dump.node) if isinstance(r, ast.Return) and isinstance(r.value, ast.Dict) and len(r.value.keys) == 1 and isinstance(r.value.keys[0], ast.Constant)]
+    ow = outer_w[0].keys[0].value if outer_w else None
+    if ow is None:
+        R.undecided(rule, dump, dump.node, "the wrapper key is the same on both sides", "dump_json does not return a one-key dictionary literal")
+    else:
+        R.check(f"json_dict['{ow}']" in norm(load.node), rule, dump, dump.node, "the wrapper key is the same on both sides", str(ow), via="table-agreement")
+    for kw in [k for c in ast.walk(load.node) if isinstance(c, ast.Call) and norm(c.func) == "cls" for k in c.keywords]:
+        v = norm(kw.value)
+        R.check(f"'{kw.arg}'" in v, rule, load, kw.value, f"from_json passes data['{kw.arg}'] as {kw.arg}", v, via="table-agreement")
+
+
 def run(P: Program, R: Report, tier: str) -> None:
     R.explanation = (
         "Agreement of the tables that writer and reader share: attribute keys vs constructor "
@@ -81,25 +141,7 @@ def run(P: Program, R: Report, tier: str) -> None:
     la = P.func_named("_load_attrs")
     R.check("FeatureDict.from_json" in norm(la.node), "R14.1", la, la.node, "the saved feature registry is rebuilt with from_json", "", via="syntax")
     # ---- R14.2
-    fd = P.class_named("FeatureDict")
-    dump, load, init = fd.methods["dump_json"], fd.methods["from_json"], fd.methods["__init__"]
-    inner = [d for d in ast.walk(dump.node) if isinstance(d, ast.Dict) and len(d.keys) >= 3 and all(isinstance(k, ast.Constant) for k in d.keys)]
-    wkeys = {k.value for k in inner[0].keys} if inner else set()
-    rkeys = set()
-    for c in ast.walk(load.node):
-        if isinstance(c, ast.Subscript) and isinstance(c.slice, ast.Constant) and norm(c.value) == "data":
-            rkeys.add(c.slice.value)
-        if isinstance(c, ast.Call) and call_name(c) == "get" and norm(c.func.value) == "data" and c.args:
-            rkeys.add(c.args[0].value)
-    pkeys = set(init.params[1:])
-    R.check(wkeys == rkeys == pkeys, "R14.2", dump, dump.node, "dump_json keys == from_json keys == FeatureDict constructor parameters",
-            f"written {sorted(wkeys)}, read {sorted(rkeys)}, parameters {sorted(pkeys)}", via="table-agreement")
-    outer_w = [d for d in ast.walk(dump.node) if isinstance(d, ast.Dict) and len(d.keys) == 1]
-    ow = outer_w[0].keys[0].value if outer_w else None
-    R.check(ow is not None and f"json_dict['{ow}']" in norm(load.node), "R14.2", dump, dump.node, "the wrapper key is the same on both sides", str(ow), via="table-agreement")
-    for kw in [k for c in ast.walk(load.node) if isinstance(c, ast.Call) and norm(c.func) == "cls" for k in c.keywords]:
-        v = norm(kw.value)
-        R.check(f"'{kw.arg}'" in v, "R14.2", load, kw.value, f"from_json passes data['{kw.arg}'] as {kw.arg}", v, via="table-agreement")
+    feature_dict_keys_agree(P, R, "R14.2")
     # ---- R14.3
     mod = P.functions[P.func_named("save_tracks").qname].module
     consts = {n.targets[0].id: n.value.value for n in mod.tree.body if isinstance(n, ast.Assign) and isinstance(n.targets[0], ast.Name) and isinstance(n.value, ast.Constant) and n.targets[0].id.endswith("_FILE")}
